@@ -35,7 +35,7 @@ ROW_KIND = {
 def run(ctx):
     repo = ctx.repo
     res = Result(PROP)
-    res.rules = ["K1", "K2", "K5", "M-MAP", "M-EMPTY", "M-DTYPE", "M-ZERO", "M-ALIGN", "M-FLOW", "M-NORM", "M-IDEM", "M-THRESH", "M-FANCY"]
+    res.rules = ["K1", "K2", "K5", "M-MAP", "M-EMPTY", "M-DTYPE", "M-ZERO", "M-ALIGN", "M-FLOW", "M-NORM", "M-IDEM", "M-THRESH", "M-FANCY", "M-SIB"]
     res.explanation = (
         "Narrow claim: kind inference over the matrix builders plus provenance of the returned index maps, definite "
         "assignment in the degenerate-shape branches and a dependency check on the multi-order normaliser. The numerical "
@@ -69,6 +69,7 @@ def run(ctx):
                      "def adjacency_tensor(H, order):\n    B = np.zeros((3,) * (order + 1))\n    for idx in H:\n        B[idx] += 1\n    return B\n",
                      lambda n: f"`{unparse(n, 60)}` populates the tensor by accumulation; a hyperedge that occurs k times (multi-edges are admissible) contributes k instead of 1, so the entries are no longer the indicator of 'these nodes form a hyperedge' (nor 1/d! of it when normalised)",
                      "accumulating population of the indicator tensor")
+        check_siblings_linear(res, fns)
         # M-THRESH: the entries compared with the threshold s are the counts themselves
         th = [f for f in fns if "s" in f.all_params]
         if not th:
@@ -590,3 +591,47 @@ def check_norm(repo, res):
         res.inst("M-NORM", f"multiorder_laplacian:{s.lineno} normaliser `{unparse(c, 40)}` is independent of {flag}", ok)
         if not ok:
             res.add(mk_finding(PROP, "M-NORM", fn, s, f"multiorder_laplacian: the per-order normaliser `{unparse(c, 40)}` depends on `{flag}` (through {sorted(used & tainted)}); the mean order-d degree must be the same whether or not each Laplacian is rescaled", role="normaliser"))
+
+
+def check_siblings_linear(res, fns):
+    """M-SIB: the sparse and the dense branch of a builder return the same matrix.  Where a builder is a straight line of
+    matrix arithmetic under each valuation of its boolean flags (sa/linform.py), both branches are evaluated to linear forms
+    over opaque matrix atoms with coefficients in the numeric parameter, and compared per valuation of the other flags.
+    Builders outside that fragment are counted as not evaluable and give no verdict."""
+    from ..linform import NotEvaluable, evaluate
+    from ..paths import valuations
+
+    pairs = 0
+    for fn in fns:
+        if fn.cls is not None or "sparse" not in fn.all_params:
+            continue
+        scal = [p_ for p_ in ("order", "s") if p_ in fn.all_params]
+        by_rest = {}
+        for val in valuations(fn.node):
+            if "sparse" not in val:
+                continue
+            rest = tuple(sorted((k, v) for k, v in val.items() if k != "sparse"))
+            try:
+                forms = evaluate(fn.node, val, scal)
+            except NotEvaluable:
+                continue
+            by_rest.setdefault(rest, {})[val["sparse"]] = forms
+        for rest, d in sorted(by_rest.items()):
+            if True in d and False in d:
+                pairs += 1
+                a, b = [f.key() for f in d[True]], [f.key() for f in d[False]]
+                ok = a == b
+                desc = ", ".join(f"{k}={v}" for k, v in rest) or "no other flag"
+                res.inst("M-SIB", f"{fn.qualname} [{desc}]: sparse and dense results are the same linear form", ok)
+                if not ok:
+                    def show(keys):
+                        out = []
+                        for kind, items in keys:
+                            if kind == "M":
+                                out.append(" + ".join(f"({' + '.join(f'{c}*order^{p_}' if p_ else str(c) for p_, c in poly)})*[{atom.split('|')[0]}]" for atom, poly in items))
+                        return "; ".join(out)
+                    res.add(mk_finding(PROP, "M-SIB", fn, fn.node, f"{fn.qualname} [{desc}]: the sparse branch returns {show(a)} while the dense branch returns {show(b)}; the two representations of the same matrix differ (a factor applied to one term only, or in one branch only)", role=f"sib:{desc}"))
+    # a builder that hands `sparse` to a helper instead of branching on it has no sibling branches to compare; the floor
+    # is therefore on the builders examined, the number of compared pairs is recorded in the evidence
+    res.counters["sparse/dense branch pairs compared as linear forms"] = pairs
+    res.floor("builders with a sparse option examined for sibling branches", len([f for f in fns if f.cls is None and "sparse" in f.all_params]), 6)
